@@ -335,6 +335,24 @@ class Interp(Op):
         return [d[0] for d in spec.dims]
 
 
+class CopyVariable(Op):
+    """newf.copyVariable(var, key=..., dtype=...) for every variable"""
+    def __init__(self, dtype):
+        self.dtype = dtype
+        self.name = 'copyVariable(dtype=%s)' % dtype
+
+    def run(self, f, f2, a, env):
+        out = f.copy(variables=False)
+        for k, v in f.variables.items():
+            if self.dtype == 'same':
+                out.copyVariable(v, key=k, dtype=v.dtype.char)
+            elif self.dtype == 'none':
+                out.copyVariable(v, key=k)
+            else:
+                out.copyVariable(v, key=k + '_c', dtype=v.dtype)
+        return out
+
+
 class FnGetvar(Op):
     name = 'fn.getvarpnc'
 
@@ -412,6 +430,7 @@ def catalogue(tier):
             RemoveSingleton(True), Reorder(), MaskGt(),
             Eval('C = A * 2'), Eval('C = A * 2', True), Eval('C = A'),
             Eval('C = A[:] + A[:]; D = C * C'),
-            Add('+'), Add('*'), Interp(), FnGetvar(), FnRemoveSingleton(),
+            Add('+'), Add('*'), Interp(), CopyVariable('same'),
+            CopyVariable('none'), CopyVariable('obj'), FnGetvar(), FnRemoveSingleton(),
             FnStack(), FnSliceDim(), FnReduceDim(), FnMaskVals()]
     return ops
